@@ -9,8 +9,8 @@ META = dict(
     level_note='Trusted: translator, shims, CBMC; floating-point expression trees are compared by structure (same operator tree on the '
                'same operands), so an algebraically equal re-association is reported as undecided after native replay, not as a violation; '
                'Surface::local_value and NaturalCoordinate::get_surface_point are contract stubs (any value).',
-    scope='get_temperature of uniform / adiabatic / linear for continental plate, oceanic plate, mantle layer, subducting plate, fault; chapman geotherm; half-space cooling model of the oceanic plate (age = ridge distance / spreading velocity); plume uniform and Gaussian temperature; uniform raw velocity and uniform grains of the area features; smooth composition of the subducting plate (uniform composition of all families: C02); the ridge look-up Utilities::calculate_ridge_distance_and_spreading behind half-space / plate cooling',
-    not_covered=['tian2019 water content, mass conserving slab temperature, random models (no closed form documented)', 'the Fourier-sum bodies of the plate model and the constant-age plate model (loops over the summation terms)', 'fault smooth composition: its expression ((center - side)*S, signed distance) does not obviously match the parameter descriptions - not brought under contract, nothing claimed'],
+    scope='get_temperature of uniform / adiabatic / linear for continental plate, oceanic plate, mantle layer, subducting plate, fault; chapman geotherm; half-space cooling model of the oceanic plate (age = ridge distance / spreading velocity); plume uniform and Gaussian temperature; uniform raw velocity and uniform grains of the area features; smooth composition of the subducting plate and of the fault (uniform composition of all families: C02); the ridge look-up Utilities::calculate_ridge_distance_and_spreading behind half-space / plate cooling',
+    not_covered=['the documented "min distance fault center" of the fault smooth composition (unused by the code, not part of the contract)', 'tian2019 water content, mass conserving slab temperature, random models (no closed form documented)', 'the Fourier-sum bodies of the plate model and the constant-age plate model (loops over the summation terms)'],
     enforced_elsewhere={},
 )
 
@@ -138,6 +138,18 @@ UNITS.append(dict(
     canaries=[(r'double age = E_div_a_a\(ridge_parameters\.data\[wb_idx\(\(\(unsigned long\)1\)', 'double age = E_div_a_a(ridge_parameters.data[wb_idx(((unsigned long)2)', 'age from the subducting velocity slot instead of the ridge distance'),
               (r'\(age > \(\(double\)0\)\)', '(age >= ((double)0))', 'age 0 treated as cooled'),
               (r'vec_double_push\(&(wb_t\d+), \(\(double\)0\)\)', r'vec_double_push(&\1, ((double)1))', 'ridge look-up asked with subducting velocity 1')]))
+
+# smooth composition of the fault (blend of the documented center / side fractions)
+_ffn = 'Features_FaultModels_Composition_Smooth_get_composition'
+UNITS.append(dict(
+    name='fault_C_smooth', enforce=_ffn, contracts='c05_fault_smooth.c', harness='h_fault_smooth',
+    targets=[dict(tu='source/world_builder/features/fault_models/composition/smooth.cc',
+                  qual='WorldBuilder::Features::FaultModels::Composition::Smooth::get_composition')],
+    defines={'MAXP': 4, 'WB_VEC_CAP': 2, 'WB_CAP_vec_uint': 4, 'WB_CAP_vec_double': 4}, defines_thorough={'MAXP': 16, 'WB_CAP_vec_uint': 16, 'WB_CAP_vec_double': 16},
+    expect_fail=['REACHABILITY-GUARD'], outline_fp='all',
+    loops={(_ffn, 1): dict(contract='__CPROVER_assigns(i)\n'
+                                    '__CPROVER_loop_invariant(i <= this_->compositions.n && (g_listed ==> i <= g_first))\n'
+                                    '__CPROVER_decreases(this_->compositions.n - i)')}))
 
 def adiab(z, tp=TP, alpha=ALPHA, cp=CP):
     return tp * math.exp(alpha * G * z / cp)
@@ -302,9 +314,40 @@ def ridge_oracle(work):
     return dict(status='holds', detail='%d queries around a ridge near the date line agree with the clamp/interpolate rule' % len(cases))
 
 
+def fault_smooth_oracle(work):
+    """fault smooth composition: the documented center fraction at the centre, the documented side fraction at and beyond the side distance"""
+    import oracle
+    for cen, side in ((1.0, 0.0), (1.0, 0.25), (0.2, 0.8)):
+        sd = 40e3
+        text = json.dumps({"version": "1.1", "coordinate system": {"model": "cartesian"}, "features": [
+            {"model": "fault", "name": "F", "min depth": 0, "max depth": 400e3, "coordinates": [[0, -500e3], [0, 500e3]], "dip point": [1e6, 0],
+             "segments": [{"length": 300e3, "thickness": [100e3], "angle": [90]}],
+             "composition models": [{"model": "smooth", "compositions": [0], "center fractions": [cen], "side fractions": [side], "side distance fault center": sd}]}]})
+        q = oracle.Q(text, work, name='fault_smooth')
+        try:
+            if q.construct_error:
+                return dict(status='error', detail=q.construct_error)
+            for x in (0.0, 1.0, -10e3, 10e3, 30e3, -39e3, 45e3):
+                st, v = q.ask('c3 %r 0 %r %r 0' % (x, 1000e3 - 50e3, 50e3))
+                if st != 'OK':
+                    continue
+                got = float.fromhex(v[0])
+                S = (1 - math.tanh(10 * (abs(x) - sd / 2) / sd)) / 2
+                exp = side + (cen - side) * S
+                if abs(got - exp) > 1e-6:
+                    return dict(status='violated', input={'center fractions': [cen], 'side fractions': [side], 'side distance fault center': sd, 'distance': abs(x)},
+                                detail='fault smooth composition with center fraction %r, side fraction %r, side distance %g km: %g km from the fault centre the library returns %r, '
+                                       'the documented blend of the two fractions gives %r (centre: the center fraction, side distance and beyond: the side fraction)' % (cen, side, sd / 1e3, abs(x) / 1e3, got, exp))
+        finally:
+            q.close()
+    return dict(status='holds', detail='3 fault worlds x 7 distances agree with side + (center - side)*S')
+
+
 def native_oracle(witness, work, search_seed=None):
     if witness.get('unit') == 'ridge_distance':
         return ridge_oracle(work)
+    if witness.get('unit') == 'fault_C_smooth':
+        return fault_smooth_oracle(work)
     if witness.get('unit'):
         return dict(status='no-native-oracle', detail='no replay oracle for unit %s' % witness['unit'])
     fdir, kind = witness.get('family', 'continental_plate'), witness.get('kind', 'linear')
